@@ -333,7 +333,7 @@ int main(int argc, char **argv)
                 /* C07 "any segmentation": a carried partial block followed by ONE update of more than 4 GiB (lengths are
                    64-bit; 32-bit handling of a length shows only here).  Input and output windows alias 2 MiB memfd
                    patterns; OpenSSL (fed in 1 GiB pieces) is the oracle: tag and final window contents must agree.
-                   Thorough tier only (VERIF_GCM_BIG=1): ~4 GiB through each family and key size. */
+                   Both tiers (VERIF_GCM_BIG=1): ~4 GiB through each family and key size. */
                 if (getenv("VERIF_GCM_BIG")) {
                         size_t P = 2u << 20;
                         uint64_t biglen = (1ull << 32) + 16;        /* window size; the lengths used are at most this */
@@ -599,7 +599,7 @@ int main(int argc, char **argv)
                 /* C04 "every multiple of 16": ONE decrypt call of more than 4 GiB whose block count is not a multiple of 8
                    (lengths are 64-bit; 32-bit handling of the length shows only here).  Input and output windows alias
                    2 MiB memfd patterns; OpenSSL (1 GiB pieces, explicit IV chaining) is the oracle: the final contents of
-                   the two output windows must agree.  Thorough tier only (VERIF_CBC_BIG=1). */
+                   the two output windows must agree.  Both tiers (VERIF_CBC_BIG=1). */
                 if (getenv("VERIF_CBC_BIG")) {
                         size_t P = 2u << 20;
                         uint64_t biglen = (1ull << 32) + 16 * (1 + rng_below(&R, 7));   /* 2^32 + 1..7 blocks */
